@@ -22,7 +22,7 @@ var _ = vReg("C13_ForeignStore", C13_ForeignStore)
 func c13buf(tag string) []byte {
 	max := 8
 	if vTier() == "thorough" {
-		max = 12
+		max = 10
 	}
 	n := vChoice(tag+"len", max+1)
 	return vBytes(tag, n)
